@@ -7,6 +7,7 @@ pub mod c05;
 pub mod c06;
 pub mod c07;
 pub mod c10;
+pub mod c11;
 pub mod c12;
 pub mod c19;
 pub mod c20;
@@ -23,6 +24,7 @@ pub fn run(name: &str, ctx: &Ctx, rep: &mut Report) -> bool {
     "c06" => c06::run(ctx, rep),
     "c07" => c07::run(ctx, rep),
     "c10" => c10::run(ctx, rep),
+    "c11" => c11::run(ctx, rep),
     "c12" => c12::run(ctx, rep),
     "c19" => c19::run(ctx, rep),
     "c20" => c20::run(ctx, rep),
